@@ -1,6 +1,7 @@
 package proxy
 
 import (
+	"context"
 	"errors"
 	"fmt"
 	"log/slog"
@@ -306,7 +307,10 @@ func (f *fetcher) dedupFetch(req *http.Request, key cache.CacheKey, clientHd *he
 	originalClientHd := *clientHd // Copy the original client headers so the shared requests don't get a modified version
 
 	fetchedObj, err, shared := f.group.Do(key.Hex, func() (any, error) {
-		return f.getFromCacheOrFetch(req, key, clientHd)
+		// The outcome of this fetch is shared with every coalesced request, so it must not be
+		// cancelled when the one client whose request happens to run it disconnects.
+		sharedReq := req.WithContext(context.WithoutCancel(req.Context()))
+		return f.getFromCacheOrFetch(sharedReq, key, clientHd)
 	})
 	if err != nil {
 		if errors.Is(err, ErrNotCacheable) {
